@@ -14,6 +14,7 @@ CONSTANTS
   AllowConcurrent = FALSE
   GcStopsOnUnreadableHunk = TRUE
   GcBandsBeforeBlocks = TRUE
+    TailCarriesCount = TRUE
   GcRefusesHeadlessNewest = TRUE
   Hash <- HashT
 INVARIANT Report
